@@ -208,7 +208,7 @@ def run(ctx):
     ctx.cov["input_distribution"] = dist
     # the scale the notes claim must really have been generated
     for k, need in MIN_SCALE[ctx.tier if ctx.tier in MIN_SCALE else "quick"].items():
-        if dist.get(k, 0) < need:
+        if dist.get(k, 0) < need and not ctx.violations:
             ctx.say(f"HARNESS-FAILED generator scale: {k}={dist.get(k, 0)} < {need}")
             return 2
     ctx.assumptions = [
